@@ -146,9 +146,11 @@ func c19Tables(p *Program, r *Report) {
 				t = nil
 			}
 		}
+		ptrs := 0
 		for t != nil {
 			if pt, ok := t.(*types.Pointer); ok {
 				t = pt.Elem()
+				ptrs++
 				continue
 			}
 			break
@@ -156,6 +158,12 @@ func c19Tables(p *Program, r *Report) {
 		n, ok := t.(*types.Named)
 		if !ok || n.Obj().Pkg() == nil {
 			r.Fail("C19.R1", inst, site, "registered type is not a named type")
+			return
+		}
+		// a struct type may be listed through a pointer (values are made with new); an interface type is listed as itself:
+		// a pointer to an interface is a different type that no Go function of the package takes
+		if _, isIface := n.Underlying().(*types.Interface); isIface && ptrs > 0 {
+			r.Fail("C19.R1", inst, site, fmt.Sprintf("listed as type %q of %q but the entry is a pointer to that interface type (an .Elem() is missing): channels, slices and maps of it are of a type no function of the package accepts", K, P))
 			return
 		}
 		tablePkgs[P+"\x00"+n.Obj().Pkg().Path()] = true
